@@ -322,7 +322,26 @@ def build(run):
                 if ufl.Mesh(S.L(ufl.triangle, 1, (2,)), ufl_id=uid).ufl_id() != uid:
                     return violated(f"Mesh(..., ufl_id={uid}) ignores the pinned id", reproduced=True, backend="exec")
                 n += 1
-        return proved("exec", vcs=n, sample=f"{len(makers)} constructors x 4 pinned counts x 3 counter states (+ Mesh ufl_id): the pinned number is the object's number"
+        # ... and automatic numbers keep following creation order whatever numbers were pinned in between (also numbers BELOW the counter): the relative
+        # order of two automatically numbered objects is what the canonical numbering of a form is built on
+        auto = {"Mesh": (lambda: ufl.Mesh(S.L(ufl.triangle, 1, (2,))), lambda k: ufl.Mesh(S.L(ufl.triangle, 1, (2,)), ufl_id=k), lambda o: o.ufl_id()),
+                "Coefficient": (lambda: ufl.Coefficient(V), lambda k: ufl.Coefficient(V, count=k), lambda o: o.count()),
+                "Constant": (lambda: ufl.Constant(m), lambda k: ufl.Constant(m, count=k), lambda o: o.count()),
+                "Index": (lambda: Index(), lambda k: Index(count=k), lambda o: o.count()), "Label": (lambda: C.Label(), lambda k: C.Label(count=k), lambda o: o.count())}
+        for start in (0, 5, 50):
+            for fam, (mk_auto, mk_pin, num) in auto.items():
+                for pinned_no in (0, 3, start, start + 1, start + 40, 10 ** 6):
+                    S.set_counters({k: start for k in S.COUNTER_FAMILIES})
+                    a_ = mk_auto()
+                    mk_pin(pinned_no)
+                    b_ = mk_auto()
+                    c_ = mk_auto()
+                    n += 1
+                    if not (num(a_) < num(b_) < num(c_)):
+                        return violated(f"{fam}: with the counter at {start}, three automatically numbered objects created around one pinned to {pinned_no} get the numbers "
+                                        f"{num(a_)}, {num(b_)}, {num(c_)}: they are not in creation order, so the numbering of a form holding them depends on the counter's history",
+                                        replay={"family": fam, "counter_start": start, "pinned": pinned_no, "numbers": [num(a_), num(b_), num(c_)]}, reproduced=True, backend="exec")
+        return proved("exec", vcs=n, sample=f"{len(makers)} constructors x 4 pinned counts x 3 counter states (+ Mesh ufl_id): the pinned number is the object's number; automatic numbers stay in creation order around pinned ones"
                       + (f"; NOT covered (public callables with a `count` parameter unknown to this obligation): {unknown}" if unknown else ""))
     run.add("frame/pinned-numbers-are-honoured", pinned, kind="values")
 
